@@ -193,3 +193,82 @@ pub fn coins_of(v: &Value) -> Vec<Coin> {
     }
     serde_json::from_value(v.clone()).expect("coins")
 }
+
+// ------------------------------------------------------------------ schemas (C16)
+
+pub fn schemas<T: cosmwasm_schema::QueryResponses>() -> Value {
+    let m = T::response_schemas_impl();
+    json!({"res": {"ok": serde_json::to_value(&m).unwrap()}})
+}
+/// Schema of a response type as cosmwasm-schema generates it for `QueryResponses` / the API file.
+pub fn cw_schema_json<T: schemars::JsonSchema>() -> Value {
+    let s = cosmwasm_schema::schema_for!(T);
+    json!({"res": {"ok": {"root": serde_json::to_value(&s).unwrap(), "name": T::schema_name()}}})
+}
+pub fn schema_json<T: schemars::JsonSchema + ?Sized>() -> Value {
+    let s = schemars::schema_for!(T);
+    json!({"res": {"ok": {"root": serde_json::to_value(&s).unwrap(), "name": T::schema_name()}}})
+}
+
+// ------------------------------------------------------------------ Remote (C20, C10)
+
+/// Everything observable about `Remote<T>` for one address string.
+pub fn remote_probe<T: ?Sized>(a: &Value) -> Value
+where
+    for<'x> sylvia::types::Remote<'x, T>: Serialize + schemars::JsonSchema,
+    sylvia::types::Remote<'static, T>: DeserializeOwned,
+{
+    use sylvia::types::Remote;
+    let s = a["addr"].as_str().expect("addr");
+    let addr = Addr::unchecked(s);
+    let owned: Remote<'static, T> = Remote::new(addr.clone());
+    let borrowed: Remote<'_, T> = Remote::borrowed(&addr);
+    let text = a["text"].as_str().expect("text");
+    let dec = match from_json::<Remote<'static, T>>(text.as_bytes()) {
+        Ok(r) => json!({"ok": {"as_ref": AsRef::<Addr>::as_ref(&r).as_str(), "re": crate::j(&r)}}),
+        Err(e) => json!({"err": e.to_string()}),
+    };
+    let schema = schemars::schema_for!(Remote<'static, T>);
+    json!({"res": {"ok": {
+        "owned": crate::j(&owned),
+        "borrowed": crate::j(&borrowed),
+        "owned_as_ref": AsRef::<Addr>::as_ref(&owned).as_str(),
+        "borrowed_as_ref": AsRef::<Addr>::as_ref(&borrowed).as_str(),
+        "decoded": dec,
+        "schema_name": <Remote<'static, T> as schemars::JsonSchema>::schema_name(),
+        "schema": serde_json::to_value(&schema).unwrap(),
+        "update_admin": serde_json::to_value(owned.update_admin(a["new_admin"].as_str().unwrap_or("adm"))).unwrap(),
+        "clear_admin": serde_json::to_value(borrowed.clear_admin()).unwrap(),
+    }}})
+}
+
+pub fn wasm_json(m: cosmwasm_std::WasmMsg) -> Value {
+    serde_json::to_value(&m).unwrap()
+}
+
+/// A querier that records every request and answers smart queries through a callback.
+pub struct RecQuerier<'f> {
+    pub log: std::cell::RefCell<Vec<Value>>,
+    pub answer: Box<dyn Fn(&str, &[u8]) -> Result<Binary, String> + 'f>,
+}
+impl<'f> RecQuerier<'f> {
+    pub fn new(answer: impl Fn(&str, &[u8]) -> Result<Binary, String> + 'f) -> Self {
+        RecQuerier { log: Default::default(), answer: Box::new(answer) }
+    }
+}
+impl cosmwasm_std::Querier for RecQuerier<'_> {
+    fn raw_query(&self, bin_request: &[u8]) -> cosmwasm_std::QuerierResult {
+        use cosmwasm_std::{ContractResult, SystemError, SystemResult};
+        let v: Value = serde_json::from_slice(bin_request).unwrap_or(Value::Null);
+        self.log.borrow_mut().push(v.clone());
+        let smart = &v["wasm"]["smart"];
+        if let (Some(addr), Some(msg)) = (smart["contract_addr"].as_str(), smart["msg"].as_str()) {
+            let bytes = Binary::from_base64(msg).unwrap_or_default();
+            return match (self.answer)(addr, bytes.as_slice()) {
+                Ok(b) => SystemResult::Ok(ContractResult::Ok(b)),
+                Err(e) => SystemResult::Ok(ContractResult::Err(e)),
+            };
+        }
+        SystemResult::Err(SystemError::UnsupportedRequest { kind: "not a smart query".into() })
+    }
+}
